@@ -206,6 +206,13 @@ def gen(seed, tier, index):
     for _ in range(n):
         name = g.step(W)
         if name == "restart": g.relogin_all()
+    # CKA_TRUSTED = true in the template of EVERY kind of creating call (not only C_CreateObject): a few of the generate / unwrap / derive / copy / key-pair
+    # calls of the plan get it added afterwards; such a call may succeed only while the SO is logged in
+    for op in g.ops[0]:
+        if op.get("f") in ("C_GenerateKey", "C_UnwrapKey", "C_DeriveKey", "C_CopyObject", "C_GenerateKeyPair") and not op.get("trusted_create") and r.random() < 0.12:
+            key_ = "pub" if op["f"] == "C_GenerateKeyPair" else "tmpl"
+            if isinstance(op.get(key_), list) and not any(e[0] == K.CKA_TRUSTED for e in op[key_]):
+                op[key_].insert(r.randint(0, len(op[key_])), A_bool(K.CKA_TRUSTED, True)); op["trusted_create"] = True
     return g.plan()
 
 def _v(cls, msg, **kw):
